@@ -634,7 +634,8 @@ def ext_make_set(eng, args, kw, node):
     src = args[0]
     c = lib.cell(eng, src) if not isinstance(src, list) else None
     if isinstance(src, list) and not src:
-        return lib.alloc(eng, Ty("setcell", STR), P(SetT(STR), z3.K(S, z3.BoolVal(False))), "cell.set")
+        # set(): element type not known yet
+        return lib.alloc(eng, Ty("setcell", ANY), Special("emptyset"), "cell.set")
     if isinstance(c, Conc) and isinstance(c.v, (set, frozenset)) and len(c.v) > 50:
         # a large constant set (the built-in reserved words): opaque constant, named by its content
         import hashlib
@@ -656,6 +657,26 @@ def _set_of_seq(eng, base, seq):
     return new
 
 
+@R.external("cell.add")
+def ext_set_add(eng, args, kw, node):
+    recv, x = args
+    c = eng.st.heap[recv.rid]
+    if isinstance(c, Special) and c.tag == "anyset":
+        return NoneV()
+    if isinstance(x, Conc):
+        x = P(eng.conc_type(x), eng.term(x))
+    if not isinstance(x, P):
+        raise Unsupported("set.add of %r" % (x,))
+    if isinstance(c, Special) and c.tag == "emptyset":
+        st_ = SetT(x.ty)
+        eng.st.heap[recv.rid] = P(st_, z3.Store(z3.K(sort_of(x.ty), z3.BoolVal(False)), x.term, True))
+        return NoneV()
+    if isinstance(c, P) and c.ty.kind == "set":
+        eng.st.heap[recv.rid] = P(c.ty, z3.Store(c.term, eng.term(x, c.ty.args[0]), True))
+        return NoneV()
+    raise Unsupported("add on %r" % (c,))
+
+
 @R.external("cell.update")
 def ext_set_update(eng, args, kw, node):
     recv, other = args
@@ -667,3 +688,31 @@ def ext_set_update(eng, args, kw, node):
         return NoneV()
     eng.st.heap[recv.rid] = P(c.ty, _set_of_seq(eng, c.term, sq.term))
     return NoneV()
+
+
+# str.lstrip(chars) / rstrip(chars): E-strws - removes the longest prefix/suffix made of the given characters
+def _strip_chars(side):
+    def h(eng, args, kw, node):
+        eng.used_assumptions.add("E-strws")
+        recv, chars = args
+        if not isinstance(chars, Conc) or not chars.v:
+            raise Unsupported("strip with symbolic characters")
+        s = eng.term(recv, STR)
+        cls = z3.Union(*[z3.Re(zstr(c)) for c in sorted(set(chars.v))]) if len(set(chars.v)) > 1 else z3.Re(zstr(chars.v[0]))
+        key = "_".join(str(ord(c)) for c in sorted(set(chars.v)))
+        f = uf("py_%sstrip_%s" % (side, key), S, S)
+        g = uf("py_%sstripped_%s" % (side, key), S, S)
+        r, cut = f(s), g(s)
+        if side == "l":
+            eng.st.pc.append(z3.And(s == z3.Concat(cut, r), z3.InRe(cut, z3.Star(cls)),
+                                    z3.Not(z3.InRe(z3.SubString(r, 0, 1), cls))))
+        else:
+            eng.st.pc.append(z3.And(s == z3.Concat(r, cut), z3.InRe(cut, z3.Star(cls)),
+                                    z3.Not(z3.InRe(z3.SubString(r, z3.Length(r) - 1, 1), cls))))
+        return P(STR, r)
+    return h
+
+
+_ws_l, _ws_r = R.ext["str.lstrip"], R.ext["str.rstrip"]
+R.ext["str.lstrip"] = lambda eng, args, kw, node: _ws_l(eng, args, kw, node) if len(args) == 1 else _strip_chars("l")(eng, args, kw, node)
+R.ext["str.rstrip"] = lambda eng, args, kw, node: _ws_r(eng, args, kw, node) if len(args) == 1 else _strip_chars("r")(eng, args, kw, node)
